@@ -186,6 +186,17 @@ pub fn check_module_closure(
     }
   };
   let Ok(orig) = fc::parse(spec, original, mt) else { return };
+  // the parser may recover from a syntax error and still hand back a tree:
+  // "parses" means without diagnostics (when the original had none)
+  if orig.diagnostics().is_empty() && !parsed.diagnostics().is_empty() {
+    o.violate(
+      format!("{id}/emitted-module-parses-with-diagnostics"),
+      format!(
+        "{spec}: {}\n{emitted_text}",
+        parsed.diagnostics().iter().map(|d| d.to_string()).collect::<Vec<_>>().join("; ")
+      ),
+    );
+  }
   // (b) closed under reference
   let bound_in_original = fc::top_level_bindings(&orig);
   let (unresolved, in_ambient_private) = fc::unresolved_idents_split(&parsed);
